@@ -21,23 +21,46 @@ def run(ctx):
     db = ctx.db
     f = db.fn('gdstk::offset', file_suffix='src/clipper_tools.cpp')
     ctx.touch(f)
-    ctx.attempt(tables.check_exhaustive, ctx, db, f, 'gdstk::OffsetJoin')
-    sw = tables.switches_on(f, 'OffsetJoin')[0]
-    vals = {c['v']: c['n'] for c in db.enum('gdstk::OffsetJoin')['consts']}
+    # join table and tolerance routing, by evaluation: for every OffsetJoin enumerator the statements that feed ClipperOffset::AddPaths are
+    # interpreted (sa/minieval.value_at: the backward slice of the join argument - a switch, an if chain with a default initialiser, a
+    # helper alike) with distance 3, scaling 7, tolerance 5: the join handed to Clipper, and the fields stored on the offsetter
+    import math
+    from .. import minieval as M
+    vals = {c['n']: c['v'] for c in db.enum('gdstk::OffsetJoin')['consts']}
     ren = clone.Renamer(f, params_by_name=True)
-    got = {}
-    extra = {}
-    for labels, stmts, top in tables.switch_arms(sw):
-        asg = [x for s in stmts for x in s.walk() if is_assign(x)]
-        for l in labels:
-            k = vals.get(l, l)
-            got[k] = next((norm(a.child('rhs').text(ren)) for a in asg if a.child('lhs').k == 'DeclRefExpr'), None)
-            extra[k] = {norm(a.child('lhs').text(ren)).split('.')[-1]: norm(a.child('rhs').text(ren)) for a in asg if a.child('lhs').k == 'MemberExpr'}
+    adds = [c for c in f.walk() if c.k == 'CXXMemberCallExpr' and (c.callee or '').endswith('ClipperOffset::AddPaths')]
+    if not adds:
+        raise AnalysisBroken('offset: ClipperOffset::AddPaths call not found')
+    jt_names = {}
+    for x in f.walk():
+        if x.k == 'DeclRefExpr' and x.dk == 'enum' and (x.qn or '').startswith('ClipperLib::jt') and x.cv is not None:
+            jt_names[x.cv] = x.qn.split('::')[-1]
+
+    def hook(callee, args, node):
+        if callee == 'cos':
+            return (math.cos(float(args[0])),)
+        return None
+    got, extra = {}, {}
+    for name, v in sorted(vals.items()):
+        res = set()
+        fields = None
+        for c in adds:
+            val, env = M.value_at(db, c.args[1], typed={'OffsetJoin': v}, obj_store=True, hook=hook, env0={'distance': 3.0, 'scaling': 7.0, 'tolerance': 5.0}, want_env=True)
+            res.add(jt_names.get(val, val))
+            objs = [o for o in env.values() if isinstance(o, M.Obj)]
+            fl = {}
+            for o in objs:
+                fl.update({k_: v_ for k_, v_ in o.items() if k_ in ('MiterLimit', 'ArcTolerance')})
+            fields = fl if fields is None else ({k_: v_ for k_, v_ in fields.items() if fl.get(k_) == v_} if fields != fl else fields)
+        got[name] = sorted(res, key=str)[0] if len(res) == 1 else sorted(res, key=str)
+        extra[name] = fields or {}
+    ctx.explored['valuations'] += len(vals) * len(adds)
+    sw = adds[0]
     ctx.check(got == {'Bevel': 'jtSquare', 'Miter': 'jtMiter', 'Round': 'jtRound'}, 'R-TABLE', 'offset/join-table', sw.loc(), 'Bevel/Miter/Round -> jtSquare/jtMiter/jtRound', 'join table is %s' % got)
-    want_extra = {'Bevel': {}, 'Miter': {'MiterLimit': '$tolerance'}, 'Round': {'ArcTolerance': '(($distance * $scaling) * (1 - cos((3.141592653589793 / $tolerance))))'}}
-    extra = {k: {a: b.replace('1.0 -', '1 -') for a, b in v.items()} for k, v in extra.items()}
-    ctx.check(extra == want_extra, 'R-UNIT', 'offset/tolerance-routing', sw.loc(), 'MiterLimit <- tolerance only under Miter; ArcTolerance <- distance x scaling x (1 - cos(pi/tolerance)) only under Round',
-              'tolerance routing is %s' % extra)
+    arc = 3.0 * 7.0 * (1.0 - math.cos(math.pi / 5.0))
+    okx = extra.get('Bevel') == {} and extra.get('Miter') == {'MiterLimit': 5.0} and set(extra.get('Round', {})) == {'ArcTolerance'} and abs(float(extra['Round']['ArcTolerance']) - arc) < 1e-9
+    ctx.check(okx, 'R-UNIT', 'offset/tolerance-routing', sw.loc(), 'MiterLimit <- tolerance only under Miter; ArcTolerance <- distance x scaling x (1 - cos(pi/tolerance)) only under Round (evaluated at distance 3, scaling 7, tolerance 5)',
+              'tolerance routing is %s (expected ArcTolerance %.6g in grid units under Round only, MiterLimit 5 under Miter only)' % (extra, arc))
     t = norm(clone.canon(f.body, f, ren=ren))
     ex = [c for c in f.walk() if c.k == 'CXXMemberCallExpr' and (c.callee or '').endswith('ClipperOffset::Execute')]
     ok = len(ex) == 1 and norm(ex[0].args[1].text(ren)) == '($distance * $scaling)'
@@ -45,7 +68,12 @@ def run(ctx):
     m = re.search(r'Paths (v\d+) = polygons_to_paths\(\$polygons, \$scaling\)', t)
     tt = next((c for c in f.walk() if c.k == 'CallExpr' and c.callee == 'gdstk::tree_to_polygons'), None)
     ctx.check(m is not None and tt is not None and norm(tt.args[1].text(ren)) == '$scaling', 'R-UNIT', 'offset/same-scaling', f.loc(), 'coordinates go in and come back with the same scaling')
-    iff = next((i for i in f.body.c if i is not None and i.k == 'IfStmt'), None)
+    # the statement that decides about the union pre-pass: the `if` the union's Clipper::Execute call sits in (not any earlier `if`,
+    # e.g. a join dispatch written as an if chain)
+    un = next((c for c in f.walk() if c.k == 'CXXMemberCallExpr' and (c.callee or '').endswith('Clipper::Execute') and 'ctUnion' in c.text()), None)
+    iff = next((a for a in (un.ancestors() if un is not None else []) if a.k == 'IfStmt' and a.parent is f.body), None)
+    if iff is None:
+        iff = next((i for i in f.body.c if i is not None and i.k == 'IfStmt'), None)
     cond = norm(iff.child('cond').text(ren)) if iff is not None else ''
     ctx.check(cond == '$use_union', 'R-DEP', 'offset/union-condition', iff.loc() if iff is not None else f.loc(), 'the union pre-pass is taken exactly when use_union is set',
               'the union pre-pass is conditioned on `%s`, not on use_union alone: with the option set the result would depend on how the region was split' % cond)
